@@ -106,6 +106,11 @@ pub enum Op {
     /// one try operation with every other thread frozen (C18)
     SoloTry { h: u32, kind: TryKind },
     Yield(u8),
+    /// run `body` `times` times (handle ids created inside are reused every cycle, so the
+    /// body must drop what it creates)
+    Repeat { times: u32, body: Vec<Op> },
+    /// record (cycle, attributed live bytes) for the churn oracle (C17)
+    Sample,
 }
 
 #[derive(Clone, PartialEq, Debug)]
@@ -255,6 +260,8 @@ impl Op {
                 }),
             ]),
             Op::Yield(k) => a(vec![J::str("yield"), J::UInt(*k as u64)]),
+            Op::Repeat { times, body } => a(vec![J::str("repeat"), J::UInt(*times as u64), J::Arr(body.iter().map(|o| o.to_json()).collect())]),
+            Op::Sample => a(vec![J::str("sample")]),
         }
     }
 
@@ -314,6 +321,11 @@ impl Op {
                 },
             },
             "yield" => Op::Yield(u(1)? as u8),
+            "repeat" => Op::Repeat {
+                times: u(1)?,
+                body: a.get(2).and_then(|x| x.as_arr()).ok_or("repeat body")?.iter().map(Op::from_json).collect::<Result<Vec<_>, _>>()?,
+            },
+            "sample" => Op::Sample,
             other => return Err(format!("unknown op {}", other)),
         })
     }
